@@ -13,7 +13,7 @@ nodes of the type expression (a constant per type).
 
 Memory itself is not observable in Lean: what is proved is that the *decoded value* (everything `decode` ever
 returns) is linear in the sequence length whatever the length fields say, and that counts are bounded by the
-sequence length. That the Rust code does not pre-allocate from untrusted counts is tested by the harness
+sequence length, and that the work done on *any* outcome is linear too (`decode_work_bound`). That the Rust code does not pre-allocate from untrusted counts is tested by the harness
 (peak bytes per decode ≤ 512·(len+1)+4096), not proved.
 -/
 namespace TF.C13
@@ -49,6 +49,15 @@ theorem decode_size_bound (t : Ty) (s : List Nat) (v : Val) (h : decode t s = .o
     v.size ≤ t.size * max 1 s.length :=
   TF.Codec.decode_size t s v h
 example : decode (.vec (.vec .u8)) [2, 1, 0, 2, 1, 5] = .ok (.list [.list [], .list [.num 5]]) := rfl
+
+/-- **Work bound, any outcome** (ok, err or panic): the number of decoder calls and loop iterations `decode t s`
+    performs — `cost t s`, defined along the control flow of `decode` in `TF/Model/Codec.lean` — is at most
+    `Ty.work t · max 1 |s|`, whatever counts and length prefixes the sequence contains. -/
+theorem decode_work_bound (t : Ty) (s : List Nat) : cost t s ≤ t.work * max 1 s.length :=
+  TF.Codec.cost_le t s
+example : cost (.vec (.vec .u8)) [18446744069414584320, 2, 1, 5, 18446744069414584320] = 8 ∧
+    decode (.vec (.vec .u8)) [18446744069414584320, 2, 1, 5, 18446744069414584320] = .err .tooShort ∧
+    (Ty.vec (.vec .u8)).work = 7 := ⟨rfl, rfl, rfl⟩
 
 /-- an accepted `Vec` never has more items than the sequence has elements (no type of the grammar without
     zero-width items; with them nothing is accepted at all, see `zero_width_vec_never_accepts`) -/
@@ -96,24 +105,31 @@ example : staticLength Ty.digest = some 5 ∧ decode Ty.digest [1, 2, 3, 4] = .e
 /-- 32-bit limbs: an element `≥ 2^32` is rejected in `u32`, `u64`, `u128`, `U32s<N>` -/
 theorem rejects_limb_out_of_range_u32 (x : Nat) (h : 2^32 ≤ x) : decode .u32 [x] = .err .range := by
   simp only [decode, decodeSmall]; rw [if_neg (by omega)]
+example : decode .u32 [4294967296] = .err .range ∧ decode .u32 [4294967295] = .ok (.num 4294967295) := ⟨rfl, rfl⟩
 theorem rejects_limb_out_of_range_u64 (a b : Nat) (h : 2^32 ≤ a ∨ 2^32 ≤ b) : decode .u64 [a, b] = .err .range := by
   have : ([a, b].any fun x => decide (x > 2^32 - 1)) = true := by
     simp only [List.any_cons, List.any_nil, Bool.or_false, Bool.or_eq_true, decide_eq_true_eq]; omega
   simp [decode, decodeLimbs, this]
+example : decode .u64 [4294967295, 4294967296] = .err .range ∧
+    decode .u64 [4294967295, 4294967295] = .ok (.num (2^64 - 1)) := ⟨rfl, rfl⟩
 theorem rejects_limb_out_of_range_u128 (a b c d : Nat) (h : 2^32 ≤ a ∨ 2^32 ≤ b ∨ 2^32 ≤ c ∨ 2^32 ≤ d) :
     decode .u128 [a, b, c, d] = .err .range := by
   have : ([a, b, c, d].any fun x => decide (x > 2^32 - 1)) = true := by
     simp only [List.any_cons, List.any_nil, Bool.or_false, Bool.or_eq_true, decide_eq_true_eq]; omega
   simp [decode, decodeLimbs, this]
+example : decode .u128 [0, 0, 0, 18446744069414584320] = .err .range := rfl
 theorem rejects_small_out_of_range (x : Nat) :
     (2^8 ≤ x → decode .u8 [x] = .err .range) ∧ (2^16 ≤ x → decode .u16 [x] = .err .range) := by
   constructor <;> intro h <;> simp only [decode, decodeSmall] <;> rw [if_neg (by omega)]
+example : decode .u8 [256] = .err .range ∧ decode .u16 [65536] = .err .range := ⟨rfl, rfl⟩
 /-- booleans and option tags greater than 1 -/
 theorem rejects_bool_out_of_range (x : Nat) (h : 1 < x) : decode .bool [x] = .err .range := by
   simp only [decode, decodeSmall]; rw [if_neg (by omega)]
+example : decode .bool [2] = .err .range ∧ decode .bool [1] = .ok (.num 1) := ⟨rfl, rfl⟩
 theorem rejects_option_tag (t : Ty) (tag : Nat) (rest : List Nat) (h : 1 < tag) :
     decode (.option t) (tag :: rest) = .err .range := by
   simp only [decode]; rw [if_neg (by omega), if_neg (by omega)]
+example : decode (.option .u8) [2, 7] = .err .range ∧ decode (.option .u8) [1, 7] = .ok (.opt (some (.num 7))) := ⟨rfl, rfl⟩
 /-- a `None` followed by anything -/
 theorem rejects_none_with_payload (t : Ty) (x : Nat) (rest : List Nat) :
     decode (.option t) (0 :: x :: rest) = .err .tooLong := by simp [decode]
@@ -130,6 +146,8 @@ theorem rejects_unknown_discriminant (vars : List (List Ty)) (d : Nat) (rest : L
       | zero => simp at hd
       | succ d => simp only [decodeVariant]; exact ih d (by simp at hd; omega)
   simp [decode, this vars d h]
+example : decode (.enum [[], [.u8]]) [2, 7] = .err .badDiscriminant ∧
+    decode (.enum [[], [.u8]]) [1, 7] = .ok (.variant 1 [.num 7]) := ⟨rfl, rfl⟩
 /-- inconsistent count of a `Vec` with statically sized items -/
 theorem rejects_inconsistent_count (t : Ty) (w n : Nat) (rest : List Nat) (hs : staticLength t = some w)
     (hne : rest.length ≠ n * w) : ∃ k, decode (.vec t) (n :: rest) = .err k := by
@@ -139,6 +157,8 @@ theorem rejects_inconsistent_count (t : Ty) (w n : Nat) (rest : List Nat) (hs : 
   · by_cases h2 : rest.length < n * w
     · exact ⟨.tooShort, by simp [h1, h2]⟩
     · exact ⟨.tooLong, by rw [if_neg h1, if_neg h2, if_pos (by omega)]; rfl⟩
+example : staticLength .u64 = some 2 ∧ decode (.vec .u64) [2, 1, 0, 2] = .err .tooShort ∧
+    decode (.vec .u64) [1, 1, 0, 2] = .err .tooLong := ⟨rfl, rfl, rfl⟩
 /-- inconsistent length prefix of a dynamically sized tuple component / list item: the accepted sequence *is* the
     layout `prefix = length of the component's encoding` (instance of uniqueness) -/
 theorem rejects_inconsistent_prefix (t : Ty) (ts : List Ty) (s : List Nat) (v : Val) (vs : List Val)
@@ -146,6 +166,9 @@ theorem rejects_inconsistent_prefix (t : Ty) (ts : List Ty) (s : List Nat) (v : 
     s = encodeFields ts vs ++ prefixed (isDyn t) (encode t v) := by
   have := TF.Codec.encode_decode _ s _ h
   simpa [encode, encodeFields] using this.symm
+example : decode (.tuple [.vec .u8, .u32]) [9, 2, 1, 7] = .ok (.list [.list [.num 7], .num 9]) ∧
+    decode (.tuple [.vec .u8, .u32]) [9, 3, 1, 7] = .err .tooShort ∧
+    decode (.tuple [.vec .u8, .u32]) [9, 1, 0, 7] = .err .tooLong := ⟨rfl, rfl, rfl⟩
 /-- a polynomial whose leading coefficient is zero is never accepted; an inconsistent length indicator neither -/
 theorem rejects_poly_trailing_zero (t : Ty) (s : List Nat) (v : Val) (h : decode (.poly t) s = .ok v) :
     ∃ cs, v = .list cs ∧ lastIsZero cs = false := by
@@ -177,6 +200,7 @@ example : decode (.poly .bfe) [3, 2, 5, 0] = .err .trailingZeros := rfl
 /-- `Vec<T>` with `T` of static width 0: decoding `[n]` panics for every `n` (`chunks_exact(0)`), … -/
 theorem zero_width_vec_panics (t : Ty) (n : Nat) (hs : staticLength t = some 0) : decode (.vec t) [n] = .panic := by
   simp [decode, decodeVec, decodeList, hs]
+example : staticLength (.array 0 .u32) = some 0 ∧ decode (.vec (.array 0 .u32)) [0] = .panic := ⟨rfl, rfl⟩
 /-- … and no sequence whatsoever is accepted, in particular not the encoding of any vector -/
 theorem zero_width_vec_never_accepts (t : Ty) (s : List Nat) (v : Val) (hs : staticLength t = some 0) :
     decode (.vec t) s ≠ .ok v := by
@@ -189,6 +213,7 @@ theorem zero_width_vec_never_accepts (t : Ty) (s : List Nat) (v : Val) (hs : sta
     split at h; · simp at h
     split at h; · simp at h
     simp at h
+example : staticLength (.struct []) = some 0 := rfl
 /-- `[T; N]` with `T` of static width 0 accepts nothing either: `N > 0` rejects the (empty) encoding of every array
     value, `N = 0` panics on it -/
 theorem zero_width_array_never_accepts (t : Ty) (n : Nat) (s : List Nat) (v : Val) (hs : staticLength t = some 0) :
@@ -202,6 +227,7 @@ theorem zero_width_array_never_accepts (t : Ty) (n : Nat) (s : List Nat) (v : Va
     split at h; · simp at h
     split at h; · simp at h
     simp at h
+example : decode (.array 3 .phantom) [] = .err .empty ∧ decode (.array 0 .phantom) [] = .panic := ⟨rfl, rfl⟩
 theorem zero_width_array_own_encoding (t : Ty) (n : Nat) (vs : List Val) (hs : staticLength t = some 0)
     (hv : HasTy (.array n t) (.list vs)) :
     encode (.array n t) (.list vs) = [] ∧
